@@ -70,14 +70,15 @@ var mutOps = []mutOp{
 	{"C01", "C01.R6", "eval/eval.go", `(?s)if buf\.Len\(\) > 0 \{\s+output = buf\.Bytes\(\)\s+_, err := s\.Out\.Write\(output\)`, "if buf.Len() > 0 {\n\t\toutput = buf.Bytes()\n\t\t_, err := bytes.NewBuffer(nil).Write(output)", "captured output written to a writer that is not the restored one"},
 	{"C02", "C02.R6", "parser/parser.go", `(?s)// nil return value\s+return stmt`, "// nil return value\n\t\tp.nextToken()\n\t\treturn stmt", "bare return shifts a token"},
 	{"C02", "C02.R7", "ast/ast.go", `p\.Right\.PrettyPrint\(out\)\n\tout\.ExpressionPrecedence = oldPrecedence\n`, "p.Right.PrettyPrint(out)\n\t_ = oldPrecedence\n", "prefix printer does not restore the enclosing precedence"},
-	{"C04", "C04.R2", "eval/eval.go", `(?s)if cantCache \{\s+s\.env\.TriggerNoCache\(\)\s+\}\s+return res\s+\}\s+// Don't cache errors`, "_ = cantCache\n\t\treturn res\n\t}\n\t// Don't cache errors", "cantCache no longer propagated"},
+	// (an operator that dropped the cantCache test of applyFunction was retired: with the test folded into `after != before || cantCache`
+	// it is an equivalent mutant - TriggerNoCache bumps the miss counter too, which the writer obligations of C04.R2 establish)
 	{"C05", "C05.R8", "eval/eval.go", `if name != "" && !s\.NoReg && s\.env\.HasRegisters\(\) && !object\.Constant\(name\) \{`, `if name != "" && !s.NoReg && !object.Constant(name) {`, "register released although none may have been acquired"},
 	{"C06", "C06.R3", "eval/eval.go", `rightArr := object\.Elements\(right\)\n`, "rightArr := object.Elements(right)\n\t\tif len(rightArr) == 0 {\n\t\t\treturn left\n\t\t}\n", "a + [] returns a"},
 	{"C06", "C06.R4", "eval/eval.go", `(?s)for i, e := range elements \{\s+elements\[i\] = object\.Value\(e\)[^\n]*\n\s+\}\n`, "", "array literal keeps references"},
 	{"C01", "C01.R9", "eval/eval.go", `(?s)case token\.BREAK:\s+return lastEval\s+case token\.CONTINUE:\s+continue\s+default: // return`, "default: // return", "while-form loop stops handling break/continue"},
 	{"C14", "C14.R7", "object/state.go", `(?s)if ref\.RefEnv\.depth == 0 \{\s+ref\.RefEnv\.numSet\+\+[^\n]*\n\s+\}`, "", "first write through a fresh reference no longer advances numSet"},
 	{"C04", "C04.R2", "object/state.go", `e\.getMiss\+\+ // a write outside of this frame[^\n]*\n`, "", "update through a reference no longer counts as a miss"},
-	{"C13", "C13.R9", "eval/macro_expension.go", `extended\.SetNoChecks\(param\.Value\(\)\.Literal\(\), args\[paramIdx\], true\)`, "extended.Set(param.Value().Literal(), args[paramIdx])", "macro parameters bound with Set"},
+	{"C13", "C13.R9", "eval/macro_expension.go", `extended\.CreateOrSet\(param\.Value\(\)\.Literal\(\), args\[paramIdx\], true\)`, "extended.CreateOrSet(param.Value().Literal(), args[paramIdx], false)", "macro parameters bound like ="},
 	{"C01", "C01.R10", "eval/eval.go", `(?s)if oerr := s\.env\.Set\(name, v\); oerr\.Type\(\) == object\.ERROR \{\s+return oerr[^\n]*\n\s+\}`, "s.env.Set(name, v)", "list loop drops the binding error"},
 	{"C08", "C08.R8", "eval/eval_api.go", `(?s)if p\.ContinuationNeeded\(\) \{[^\n]*\n\s+return object\.NULL, errors\.New\("parsing error: incomplete input"\)\s+\}`, "_ = errors.New", "EvalString evaluates incomplete trees again"},
 	{"C04", "C04.R5", "eval/eval.go", `(?s)if res\.Type\(\) == object\.FUNC \{\s+return res\s+\}`, "", "closures become cacheable again"},
@@ -119,6 +120,17 @@ var mutOps = []mutOp{
 	{"C05", "C05.R13", "eval/eval.go", `(?s)if in\.Type\(\) == token\.QUOTE && len\(in\.Parameters\) == 1 \{.*?if found \{\n\t\t\t\treturn nil, false\n\t\t\t\}\n\t\t\}`, "", "quote no longer aborts the register rewrite"},
 	{"C14", "C14.R10", "object/state.go", `if f\.Name != nil && f\.Name\.Literal\(\) == k \{`, "if f.Name != nil {", "definition form written for aliases too"},
 	{"C15", "C15.R6", "parser/parser.go", `(?s)if p\.curTokenIs\(token\.RPAREN\) && p\.peekTokenIs\(token\.EOL\) \{[^\n]*\n\t\tp\.continuationNeeded = true\n\t\treturn nil\n\t\}\n`, "", "() at the end of a line is a parse error again"},
+	{"C02", "C02.R12", "ast/ast.go", `ps\.Print\(strconv\.Quote\(s\.Literal\(\)\)\)`, "ps.Print(`\"`, s.Literal(), `\"`, strconv.Quote(\"\")[:0])", "string literal printed raw"},
+	{"C03", "C03.R8", "parser/parser.go", `t == token\.LBRACKET && p\.l\.HadWhitespace\(\)`, "t == token.LBRACKET && p.l.HadWhitespace() && !p.nextNewline", "the [ guard looks at something the ( guard does not"},
+	{"C04", "C04.R2", "object/state.go", `(?s)e\.getMiss\+\+([^\n]*)\n(\s+)e = rr\.RefEnv`, "e = rr.RefEnv\n${2}e.getMiss++", "miss charged to the referenced environment"},
+	{"C05", "C05.R14", "eval/eval.go", `(?s)(case token\.REGISTER:\n\t\treg := node\.Left\.\(\*object\.Register\)\n)`, "${1}\t\tif node.Type() == token.DEFINE {\n\t\t\treturn s.env.CreateOrSet(reg.Literal(), right, true)\n\t\t}\n", "the REGISTER arm also creates a variable"},
+	{"C11", "C11.R7", "object/object.go", `m\.kv\[i\]\.Value = value`, "m.kv[i] = kv", "update replaces the stored key"},
+	{"C11", "C11.R8", "object/object.go", `return NewArray\(v\.elements\[1:\]\)`, "return BigArray{elements: v.elements[1:]}", "rest of a big array reslices in place"},
+	{"C14", "C14.R11", "object/object.go", `(?s)func \(f Float\) Inspect\(\) string \{\n`, "func (f Float) Inspect() string {\n\tif f.Value != 0 && f.Value >= math.MinInt64 && f.Value <= math.MaxInt64 && f.Value == math.Trunc(f.Value) {\n\t\treturn strconv.FormatInt(int64(f.Value), 10)\n\t}\n", "whole floats printed through int64"},
+	{"C15", "C15.R7", "parser/parser.go", `\(p\.peekToken\.Type\(\) == token\.RBRACKET\)`, "(p.prefixParseFns[p.peekToken.Type()] == nil)", "operand left out whenever the next token cannot start an expression"},
+	{"C16", "C16.R8", "lexer/lexer.go", `return ch == ' ' \|\| ch == '\\t' \|\| ch == '\\n' \|\| ch == '\\r'`, "return ch == ' ' || ch == '\\t' || ch == '\\n' || ch == '\\r' || ch == '\\v'", "vertical tab skipped as whitespace"},
+	{"C18", "C18.R6", "repl/repl.go", `scanner\.Buffer\(nil, math\.MaxInt\)`, "scanner.Buffer(nil, min(math.MaxInt, options.MaxValueLen+1024))", "line limit of the state file reader"},
+	{"C20", "C20.R10", "trie/trie.go", `(?s)(func \(t \*Trie\) Prefix\(word string\) \*Trie \{\n\tfor i := range len\(word\) \{\n\t\tchar := word\[i\]\n)`, "${1}\t\tif t.max == 0 {\n\t\t\treturn nil\n\t\t}\n", "Prefix gives up when max == 0"},
 	{"C01", "C01.R12", "eval/eval.go", `oerr := s\.env\.Set\(name\.Literal\(\), fn\)`, "oerr := s.env.CreateOrSet(name.Literal(), fn, true)", "named function bound as a forced local"},
 	{"C02", "C02.R5", "ast/ast.go", `ps\.last != "\}" && ps\.last != "\]"`, `ps.last != "}" && ps.last != "]" && ps.last != ")"`, "compact separator also dropped after )"},
 	{"C03", "C03.R7", "parser/parser.go", `Statements: \[\]ast\.Node\{p\.parseIfExpression\(\)\}`, "Statements: []ast.Node{p.parseStatement()}", "else-if alternative parsed as a statement"},
@@ -233,6 +245,11 @@ func selfTestImpl(id string, c *Ctx, r *Report, verif string) map[string]any {
 	res["skipped"] = skipped
 	if len(missed) > 0 {
 		r.Undecided("mutation self-test: %d operator(s) not detected: %s", len(missed), strings.Join(missed, "; "))
+	}
+	if len(skipped) > 0 {
+		// not a verdict on the tree: the operator's target moved (or its variant no longer compiles) and it has to be
+		// brought up to date; listed so that it is not silently lost
+		r.Note("mutation self-test: %d operator(s) could not be applied and were skipped: %s", len(skipped), strings.Join(skipped, "; "))
 	}
 	return res
 }
